@@ -204,7 +204,8 @@ Inv_Emit ==
         CASE IsSoup -> PrintT(<<"REPLAY", ToJson([doc |-> doc])>>)
           [] Mode = "rewrite" /\ phase = 1 ->
                 PrintT(<<"REPLAY", ToJson([ty |-> ty, v |-> v, base |-> Base,
-                                           docs |-> {RenderDoc(Tree, st) : st \in Rewrites(Tree, ty) \cup Combos(Tree, ty)}])>>)
+                                           docs |-> {RenderDoc(Tree, st) : st \in {x \in Rewrites(Tree, ty) \cup Combos(Tree, ty) : InvisibleToEvents(x)}},
+                                           udocs |-> {RenderDoc(Tree, st) : st \in {x \in Rewrites(Tree, ty) \cup Combos(Tree, ty) : ~InvisibleToEvents(x)}}])>>)
           [] Mode = "interleave" /\ phase = 1 ->
                 PrintT(<<"REPLAY", ToJson([ty |-> ty, v |-> v,
                                            cases |-> {<<RenderDoc(Reassemble(Tree, o), BaseStyle), Held(o, ListFields(ty)), SumSizes(o)>> : o \in Inter(ChildrenOf(Tree, ty))}])>>)
